@@ -161,6 +161,7 @@ func (e *Engine) call(f *frame, st *State, instr ssa.Value, cc *ssa.CallCommon, 
 				"callback "+prm.Name()+" may only be called with: "+cl.Text)
 		}
 	}
+	e.shareArgs(st, nil, cc.Signature(), args, "dyncall", pos)
 	e.note("dynamic call of unknown function value: all memory havocked, results unconstrained")
 	e.havocFamilies(st, []string{"*"})
 	res := e.havocResult(st, "dyncall", rt)
@@ -198,6 +199,7 @@ func (e *Engine) invokeUnknown(f *frame, st *State, cc *ssa.CallCommon, recv Val
 	key := typeStr(cc.Value.Type()) + "." + cc.Method.Name()
 	// interface-level contract?
 	if ct := e.W.Contracts["iface "+key]; ct != nil {
+		e.shareInvoke(st, cc, recv, args, key, pos)
 		return e.applyContract(f, st, ct, nil, ct.IfaceSig, append([]Val{recv}, args...), rt, pos, key)
 	}
 	// methods that return a constant in every implementer (GetOpCode, IsResponse, ...) are pure functions of the
@@ -206,6 +208,7 @@ func (e *Engine) invokeUnknown(f *frame, st *State, cc *ssa.CallCommon, recv Val
 		return v
 	}
 	// repo interface: effect = union of implementers' mod sets
+	e.shareInvoke(st, cc, recv, args, key, pos)
 	ms := e.W.invokeModSet(cc.Value.Type(), cc.Method)
 	e.note("interface method " + key + " without contract: results unconstrained, mod-set of all implementers havocked")
 	e.havocFamilies(st, ms.list())
@@ -242,6 +245,7 @@ func (e *Engine) staticCall(f *frame, st *State, fn *ssa.Function, args []Val, b
 			return packResults(rt, rets)
 		}
 		if ct != nil && !ct.Inline {
+			e.shareArgs(st, fn, fn.Signature, append(append([]Val{}, args...), binds...), key, pos)
 			return e.applyContract(f, st, ct, fn, fn.Signature, args, rt, pos, key)
 		}
 		if e.canInline(f, fn, ct) {
@@ -250,6 +254,7 @@ func (e *Engine) staticCall(f *frame, st *State, fn *ssa.Function, args []Val, b
 			return packResults(rt, rets)
 		}
 		ms := e.W.modSet(fn)
+		e.shareArgs(st, fn, fn.Signature, append(append([]Val{}, args...), binds...), key, pos)
 		e.checkDefaultPre(st, fn, nil, args, key, pos)
 		e.note("call of " + key + " without contract: results unconstrained, its static mod-set havocked")
 		e.havocFamilies(st, ms.list())
@@ -261,6 +266,20 @@ func (e *Engine) staticCall(f *frame, st *State, fn *ssa.Function, args []Val, b
 		return e.havocResult(st, "log", rt)
 	}
 	// unmodelled external function
+	if strings.HasPrefix(name, "(*math/big.Int).") && len(args) > 0 && typeStr(rt) == "*math/big.Int" {
+		// z.Op(...) computes into the receiver and returns it (documented for every arithmetic method of big.Int);
+		// the value is not modelled
+		e.nilCheck(st, args[0], pos, "nil *big.Int")
+		e.frameCheckRef(f, st, args[0].Terms[0], "cell:math/big.Int", pos)
+		e.bigSet(st, args[0].Terms[0], e.C.Fresh("big.unmodelled", smt.BV(bigW)))
+		e.note("unmodelled (*big.Int)." + fn.Name() + ": writes and returns its receiver, value unconstrained")
+		v := Val{Typ: rt, Terms: []*smt.Term{args[0].Terms[0]}}
+		e.wrapPtr(&v)
+		return v
+	}
+	if e.Share != nil && !readOnlyExternalFn(name) {
+		e.shareArgs(st, nil, fn.Signature, args, name, pos)
+	}
 	e.note("external function " + name + " is not modelled: results unconstrained, memory reachable through slice/pointer arguments havocked")
 	var fams []string
 	for _, a := range args {
